@@ -119,6 +119,40 @@ func transcriptCommon(tr *transcript, seed []byte, n int) {
 		rv := random.Int(M, blake2xb.New(buf))
 		tr.put(fmt.Sprintf("randint:%d", i), "%s", rv.ToBigInt().Text(16))
 	}
+	// --- mod.Int register programs: value semantics must not differ between the builds either
+	// (Set / Clone followed by an in-place decode or update of one of the two objects)
+	for i := 0; i < n; i++ {
+		m := mods[i%len(mods)]
+		M := compatiblemod.FromBigInt(new(big.Int).Set(m))
+		regs := []*mod.Int{mod.NewInt64(int64(i), M), mod.NewInt64(1, M), mod.NewInt64(0, M)}
+		for step := 0; step < 6; step++ {
+			ob := make([]byte, 3)
+			st.XORKeyStream(ob, ob)
+			r, a := int(ob[1])%3, int(ob[2])%3
+			buf := make([]byte, 1+(int(ob[0])>>3)%40)
+			st.XORKeyStream(buf, buf)
+			switch ob[0] % 7 {
+			case 0:
+				regs[r].Set(regs[a])
+			case 1:
+				if c, ok := regs[a].Clone().(*mod.Int); ok {
+					regs[r] = c
+				}
+			case 2:
+				regs[r].SetBytes(buf)
+			case 3:
+				enc, _ := regs[a].MarshalBinary()
+				_ = regs[r].UnmarshalBinary(enc)
+			case 4:
+				regs[r].Add(regs[r], regs[a])
+			case 5:
+				regs[r].SetInt64(int64(ob[1]) - 100)
+			case 6:
+				regs[r].Mul(regs[a], regs[a])
+			}
+			tr.put(fmt.Sprintf("modprog:%d:%d", i, step), "op%d r%d a%d -> %s %s %s", ob[0]%7, r, a, hexOf(regs[0]), hexOf(regs[1]), hexOf(regs[2]))
+		}
+	}
 	// --- signatures and sharing on Ed25519
 	for i := 0; i < n/4+1; i++ {
 		sd := make([]byte, 32)
